@@ -76,6 +76,18 @@ func safeTokenize(b []byte) (items []lexer.Item, pmsg string) {
 				break
 			}
 		}
+		if r.pmsg == "" {
+			// the stepping above terminated, so lexer.Tokenize itself terminates on this input: it must return exactly
+			// the items NextToken hands out (no cap, no post-processing, EOF last)
+			tz := lexer.Tokenize(bytes.NewReader(b))
+			same := len(tz) == len(r.items)
+			for i := 0; same && i < len(tz); i++ {
+				same = tz[i] == r.items[i]
+			}
+			if !same {
+				r.pmsg = fmt.Sprintf("TOKENIZE: lexer.Tokenize returns %d items, stepping NextToken to EOF gives %d (or they differ)", len(tz), len(r.items))
+			}
+		}
 	}()
 	select {
 	case r := <-ch:
